@@ -32,6 +32,7 @@ func swarmGen(plan *Tape, thorough bool) *GenCfg {
 	c.Disabled = plan.Draw(3) > 0
 	c.ExecStages = plan.Draw(2) > 0
 	c.Local = plan.Draw(3) == 1
+	c.Preflight = plan.Draw(3) == 1
 	return c
 }
 
